@@ -21,6 +21,8 @@ def run(ctx):
     ctx.rule("R-SEG-CEIL", "announced packet / segment count = ceil(len/7) resp. ceil(len/60): exactly the data packets that follow", floor=4)
     ctx.rule("R-WAKEUP-COVER", "a paced / re-armed session's new deadline reaches the job pass's next wake-up (DT spacing stays within the peer's T1)", floor=6)
     ctx.rule("R-ANNOUNCED-PGN", "the PGN bytes of RTS/BAM are data page | PF | PS-or-0 of the message's parameter group", floor=8)
+    ctx.rule("R-REFRESH", "as responder: every data packet of a conforming (slow but legal) peer re-arms the receive deadline, broadcasts included", floor=4)
+    ctx.rule("R-WINDOW-AFFINE", "as originator: packets sent per CTS = granted count (clamps test the granted count)", floor=4)
     for fd in (False, True):
         L = T.Layer(ctx, fd=fd)
         LY.builders(ctx, L)
@@ -29,6 +31,8 @@ def run(ctx):
         F.cts_border(ctx, L)
         F.grant_min(ctx, L)
         T.seg_ceil(ctx, L)
+        S.refresh(ctx, L)
+        F.window_affine(ctx, L)
         LY.announced_pgn(ctx, L)
         TM.wakeup_cover(ctx, L)
         if fd:
